@@ -57,6 +57,92 @@ def norm_fmt(fmt):
     return (order + body, size)
 
 
+_MIRROR_CACHE = {}
+
+
+def _mirrors(fn):
+    """{local: attribute text} for locals kept equal to a `self.<attr>`: every store to the local is a copy of the
+    attribute or a chained assignment with it, and every store to the attribute in the function is chained with
+    the local.  The shaper has one symbol for a state attribute; such a local is that symbol too."""
+    assigns, other_store, attr_aug = [], set(), set()
+    todo = list(fn.body)
+    while todo:
+        n = todo.pop()
+        if isinstance(n, (ast.FunctionDef, ast.AsyncFunctionDef, ast.Lambda, ast.ClassDef)):
+            return {}
+        if isinstance(n, ast.Assign):
+            assigns.append(n)
+            todo.append(n.value)
+            for t in n.targets:
+                if not isinstance(t, (ast.Name, ast.Attribute)):
+                    todo.append(t)
+            continue
+        if isinstance(n, ast.AugAssign) and isinstance(n.target, ast.Attribute):
+            attr_aug.add(norm(n.target))
+        if isinstance(n, ast.Name) and isinstance(n.ctx, (ast.Store, ast.Del)):
+            other_store.add(n.id)
+        todo.extend(ast.iter_child_nodes(n))
+    cand = {}
+    for s in assigns:
+        names = [t.id for t in s.targets if isinstance(t, ast.Name)]
+        attrs = [norm(t) for t in s.targets if isinstance(t, ast.Attribute) and isinstance(t.value, ast.Name) and t.value.id == "self"]
+        if len(names) == 1 and len(attrs) == 1 and len(s.targets) == 2:
+            cand.setdefault(names[0], set()).add(attrs[0])
+    out = {}
+    params = {a.arg for a in fn.args.args + fn.args.kwonlyargs + fn.args.posonlyargs}
+    for L, As in cand.items():
+        if len(As) != 1 or L in other_store or L in params:
+            continue
+        A = next(iter(As))
+        if A in attr_aug:
+            continue
+        ok = True
+        for s in assigns:
+            tl = [t for t in s.targets if isinstance(t, ast.Name) and t.id == L]
+            ta = [t for t in s.targets if isinstance(t, ast.Attribute) and norm(t) == A]
+            if tl and ta and len(s.targets) == 2:
+                continue
+            if tl and not ta and len(s.targets) == 1 and norm(s.value) == A:
+                continue
+            if tl or ta:
+                ok = False
+                break
+        if ok:
+            out[L] = A
+    return out
+
+
+def demirrored(fn):
+    """the function body with mirror locals replaced by the attribute they mirror"""
+    key = id(fn)
+    hit = _MIRROR_CACHE.get(key)
+    if hit is not None and hit[0] is fn:
+        return hit[1]
+    m = _mirrors(fn)
+    body = fn.body
+    if m:
+        import copy
+
+        class T(ast.NodeTransformer):
+            def visit_Name(self, n):
+                if n.id in m and isinstance(n.ctx, ast.Load):
+                    return ast.copy_location(ast.parse(m[n.id], mode="eval").body, n)
+                return n
+
+            def visit_Assign(self, s):
+                s.value = self.visit(s.value)
+                s.targets = [t for t in s.targets if not (isinstance(t, ast.Name) and t.id in m)]
+                if not s.targets:
+                    return None
+                return s
+
+        body = [x for x in (T().visit(copy.deepcopy(s)) for s in fn.body) if x is not None]
+        for x in body:
+            ast.fix_missing_locations(x)
+    _MIRROR_CACHE[key] = (fn, body)
+    return body
+
+
 class Shaper:
     def __init__(self, program, cg, side):
         self.p = program
@@ -87,7 +173,7 @@ class Shaper:
         self.root = finfo
         self.in_codec = finfo.cls is not None and self.codec_cls in self.p.mro(finfo.cls)
         try:
-            return self._body(finfo, finfo.node.body, env)
+            return self._body(finfo, demirrored(finfo.node), env)
         finally:
             self.in_codec = False
 
@@ -615,7 +701,7 @@ class Shaper:
                 self.in_codec = True
         self.depth += 1
         try:
-            sub = self._body(callee, callee.node.body, new)
+            sub = self._body(callee, demirrored(callee.node), new)
         finally:
             self.depth -= 1
             self.in_codec = saved
